@@ -11,7 +11,15 @@ TRUST = ('Assumed, not proved: floats are mathematical reals and ints unbounded 
 TECH = ('contract-based deductive verification: sidecar contracts (requires/ensures/modifies/invariants) on the real '
         'functions of /repo/mabwiser, VCs generated from their AST on every run (PyVC) and discharged by z3')
 
-SCOPE = ' Scope of this claim: the context-free policies, the linear policies, Radius and KNearest over every one of them, and the MAB facade constructed over those; LSHNearest, Clusters, TreeBandit and the Simulator are not under contract yet (stated in DESIGN.md; a change confined to those modules is not seen by this check).'
+SCOPE = (' Scope of the proof: the context-free policies, the linear policies, Radius and KNearest over every one of them, '
+         'and the MAB facade constructed over those. approximate.py (LSHNearest), clusters.py and treebandit.py are not '
+         'under contract (DESIGN.md 12.6): for them, and for NumPy dtype / memory-layout effects everywhere, the check '
+         'runs the bounded runtime leg (rt/: the property\'s executable form on the real API over enumerated small scopes, '
+         'reported under "bounded" in the evidence and never counted as proved; a failing input found there is reported '
+         'as a violation with the input).')
+BOUNDED_TECH = ('bounded stand-in (no contract within reach of the prover): executable form of the property - independent '
+                'reference semantics and differential checks - run against the real public API over enumerated small scopes; '
+                'labelled bounded, not a proof')
 
 CLAIMS = {
     'C01': ('Per-class representation invariant (sum, count, mean, UCB bonus with N, soft-max share, normalised share, '
@@ -76,6 +84,49 @@ CLAIMS = {
             + SCOPE, '7 C18'),
 }
 
+CLAIMS.update({
+    'C06': ('Lemma programs over the contracts (lemmas/py/incremental.py, contracts in specs/lemmas.py): for every '
+            'context-free policy, for _Linear (ridge / ucb / ts, scale=False) and for the stored history of Radius / '
+            'KNearest, a bandit trained by one fit on d1++d2 and a bandit trained by fit(d1); partial_fit(d2) are proved to '
+            'end in the same view, for symbolic batches (hence every split, chunks missing arms and one-row chunks '
+            'included); every call in the lemma is resolved against the callee\'s contract, and the callees\' own '
+            'obligations (tagged C06) tie it to the real bodies. The concatenation laws used as SMT axioms are theorems of '
+            'lemmas/lean/SeqLaws.lean (Lean 4 / Mathlib, re-checked by the thorough tier).' + SCOPE, '12.1, 7 C06'),
+    'C19': ('Repository side only, as DESIGN 7 C19 says: obligations copy.hooks and attr.universe.static on the AST of '
+            'every class of the package (no __getstate__/__reduce__/__deepcopy__/__slots__; no store through self of a '
+            'lambda, generator expression, local function, open(), iter(), id()), attr.universe on every explored path of '
+            'every function under contract. That copy.deepcopy and pickle reproduce an object graph made of the remaining '
+            'types is assumed (A6); the bounded leg exercises it (deepcopy, pickle protocols 2 and 5, before and after '
+            'training, same continuation, all policy combinations).' + SCOPE, '12.1, 7 C19'),
+    'C20': ('Renaming: obligation arm.parametric on every function under contract - the translation refuses any flow of '
+            'an arm label into an order comparison, arithmetic, a comparison with a constant, sorted / hash / int / float / '
+            'astype / np.sort (MT3: Arm is an uninterpreted sort). Row order, reward shift and reward scale: lemma programs '
+            '(lemmas/py/invariance.py) over the contracts of fit for the context-free policies and _Linear, with the '
+            'permutation / shift / scale laws proved in Lean. Radius row order follows from the row clause (a within-'
+            'radius *set*); KNearest and Clusters are excluded by the statement.' + SCOPE, '12.1, 7 C20'),
+})
+BOUNDED = {
+    'C11': ('No contract on approximate.py is within reach of the prover (int- and float-keyed hash tables, 2**i; DESIGN.md '
+            '12.6). Bounded stand-in: for LSHNearest over EpsilonGreedy(0), UCB1 and LinGreedy(0), n_dimensions / n_tables in '
+            '{(3,2),(1,1),(4,3)}, n_jobs in {1,2}, histories fit + partial_fit*, the neighbourhood of every query (grid '
+            'points, stored rows, positive multiples of stored rows) is recomputed from the bandit\'s own hyperplanes as '
+            'the set of stored rows sharing the sign pattern in at least one table, and the returned expectations are '
+            'compared with the learning policy trained on exactly that set (NaN when empty).', '12.2, 12.6'),
+    'C12': ('No contract on clusters.py / treebandit.py is within reach (symbolic number of policy objects, estimators as '
+            'state). Bounded stand-in: the expectations of Clusters (KMeans and MiniBatchKMeans) are compared with the '
+            'learning policy trained on exactly the stored rows in the query\'s cell as computed by the fitted estimator; '
+            'TreeBandit with the policy statistic over exactly the arm\'s rewards in the query\'s leaf, 0 for an arm '
+            'without observations; after fit, partial_fit and add_arm.', '12.2, 12.6'),
+    'C15': ('simulator.py is not under contract. Bounded stand-in: for offline and online runs (is_ordered, batch_size in '
+            '{0,1,3,4,10}, is_quick), with several bandits per simulation including neighbourhood bandits with different '
+            'metrics, the reported predictions are compared with an identically configured bandit driven through the public '
+            'API with the same split and protocol (online protocol for deterministic policies).', '12.2, 12.6'),
+    'C16': ('simulator.py is not under contract. Bounded stand-in: test indices distinct, the last rows when ordered; one '
+            'prediction per test row and bandit; total / train / test statistics equal to recomputation, train + test counts '
+            'and sums give the totals; evaluated counts sum to the number of test rows; min <= mean <= max analyses.',
+            '12.2, 12.6'),
+}
+
 NOT_YET = 'check under construction in this session (contracts for the functions it depends on are not complete yet); not claimed'
 
 
@@ -94,6 +145,23 @@ def main():
             'level_note': TRUST,
             'technique': TECH,
         })
+    for pid, (text, ref) in sorted(BOUNDED.items()):
+        checks.append({
+            'property_id': pid,
+            'quick_cmd': './check %s --tier quick' % pid,
+            'thorough_cmd': './check %s --tier thorough' % pid,
+            'evidence_file': 'evidence/%s.json' % pid,
+            'replay_cmd_template': './check --replay {path}',
+            'engine': 'rt',
+            'level_claimed': {'category': 'exploration', 'text': 'BOUNDED, not a proof. ' + text,
+                              'design_ref': 'DESIGN.md section ' + ref},
+            'level_note': 'Nothing is proved for this property. The oracle (rt/oracle.py) is an independent reading of the '
+                          'statement; cell / leaf membership and hyperplanes are read from the fitted objects; bounds: 3-5 '
+                          'arms, <= 12 rows per batch, <= 3 batches, integer-grid contexts in [-3,3]^2, the listed policy '
+                          'combinations, one seed per run (VERIF_SEED).',
+            'technique': BOUNDED_TECH,
+        })
+    checks.sort(key=lambda c: c['property_id'])
     m = {
         'version': 1,
         'setup_cmd': 'python3-vt -c "import z3, sys; sys.path.insert(0, \'.\'); import pyvc.verify"',
@@ -103,9 +171,15 @@ def main():
                   'source_commits': [], 'add_only': True},
         'engines': [{'name': 'pyvc', 'path': 'pyvc/', 'serves_properties': sorted(CLAIMS),
                      'kind_free_text': 'verification-condition generator over the real AST of /repo/mabwiser with sidecar '
-                                       'contracts (specs/), z3 5.1 back end, cvc5 for lambda-free queries z3 leaves open'}],
+                                       'contracts (specs/), z3 5.1 back end, cvc5 for lambda-free queries z3 leaves open; '
+                                       'lemma programs (lemmas/py) with Lean-proved laws (lemmas/lean)'},
+                    {'name': 'rt', 'path': 'rt/', 'serves_properties': sorted(set(CLAIMS) | set(BOUNDED)),
+                     'kind_free_text': 'bounded runtime leg: executable forms of the properties run on the real API under '
+                                       '/venv/bin/python (replay of failed obligations; stand-in for the modules out of the '
+                                       'prover\'s reach); never counted as proved'}],
         'checks': checks,
-        'not_applicable': [{'property_id': p['id'], 'reason': NOT_YET} for p in props if p['id'] not in CLAIMS],
+        'not_applicable': [{'property_id': p['id'], 'reason': NOT_YET} for p in props
+                           if p['id'] not in CLAIMS and p['id'] not in BOUNDED],
         'notes': 'Repairs of genuine defects in /repo are separate "fix:" commits, listed in known_findings.json.',
     }
     json.dump(m, open(os.path.join(ROOT, 'MANIFEST.json'), 'w'), indent=1)
